@@ -459,7 +459,44 @@ func NewCluster(n int, opts ...gorums.ServerOption) (*Cluster, error) {
 	return c, nil
 }
 
+// trackListener remembers the connections it accepts, so that the harness can drop them while the server keeps
+// listening (a connection reset with a reachable node: middlebox drop, NAT timeout).
+type trackListener struct {
+	net.Listener
+	mu    sync.Mutex
+	conns []net.Conn
+}
+
+func (t *trackListener) Accept() (net.Conn, error) {
+	c, err := t.Listener.Accept()
+	if err == nil {
+		t.mu.Lock()
+		t.conns = append(t.conns, c)
+		t.mu.Unlock()
+	}
+	return c, err
+}
+
+// DropConns closes every connection server i has accepted so far; the server keeps listening.
+func (c *Cluster) DropConns(i int) int {
+	c.mu.Lock()
+	l, _ := c.lis[i].(*trackListener)
+	c.mu.Unlock()
+	if l == nil {
+		return 0
+	}
+	l.mu.Lock()
+	conns := l.conns
+	l.conns = nil
+	l.mu.Unlock()
+	for _, cn := range conns {
+		_ = cn.Close()
+	}
+	return len(conns)
+}
+
 func (c *Cluster) start(i int, l net.Listener) {
+	l = &trackListener{Listener: l}
 	idx := i
 	opts := append([]gorums.ServerOption{gorums.WithConnectCallback(func(ctx context.Context) {
 		c.D.mu.Lock()
